@@ -188,6 +188,9 @@ func runCheck(cfg *PropConfig, tier string, seed int) int {
 			for _, v := range rep.Vacuous {
 				undecided = append(undecided, "vacuous contract: "+v)
 			}
+			for _, u := range rep.Unstatable {
+				undecided = append(undecided, "clause cannot be stated on the current code: "+u)
+			}
 		}
 	}
 	// extra engines
